@@ -6,7 +6,7 @@ From Arche Require Import Model.Base Model.Pool Model.Filter Model.World Model.O
   Proofs.Tables Proofs.Bits Proofs.Store Proofs.Graph Proofs.WorldInv Proofs.Cursor
   Proofs.Frame Proofs.StepFrame Proofs.Subs
   Proofs.RelGraph Proofs.RelWorld Proofs.RelRefine Proofs.QueryExact Proofs.CacheInv Proofs.BatchMove
-  Proofs.BatchExchange Proofs.EventsExact Proofs.BatchQ.
+  Proofs.BatchExchange Proofs.BatchSetRel Proofs.EventsExact Proofs.BatchQ.
 
 Definition ev_of (w w' : world) (add rem : list nat) (e : Entity) : list event :=
   match ent_mask w e, ent_mask w' e, ent_rel w e, ent_rel w' e, ent_target w e, ent_target w' e with
@@ -82,4 +82,74 @@ Proof.
   simpl. do 2 f_equal.
   - rewrite (N.lxor_comm (n_mask nd) om). apply N.land_comm.
   - rewrite (N.lxor_comm (n_mask nd) om). apply N.land_comm.
+Qed.
+
+(** ** Batch.SetRelation / Relations.SetBatch: one TargetChanged event per re-targeted entity,
+       in processing order, carrying the entity's old target; entities that already had the
+       target produce no event (they are not touched). Each is the event of the single
+       [Relations.Set] ([target_event_exact]). *)
+Definition sr_ev (w : world) (rid : nat) (e : Entity) : list event :=
+  match ent_target w e with
+  | Some ot => [mkEv e 0 0 [] [] (Some rid) (Some rid) ot 32 false 0]
+  | None => []
+  end.
+
+Theorem batch_set_relation_events_exact w A f rid T w' n evs :
+  R w A -> cache_ok w -> w_listener w = Some lall ->
+  op_batch_set_relation w (FPlain f) rid T = (w', Ok (VNat n), evs) ->
+  evs = flat_map (sr_ev w rid) (table_ents w (retargeted T w (get_tables w f))).
+Proof.
+  intros HR C Hlis H. pose proof HR as [K Hr Hu He].
+  unfold op_batch_set_relation in H.
+  destruct (set_relation_batch_nn w (FPlain f) rid T) as [[[[w1 n1] segs]|]|[]] eqn:Hb; simpl in H; try done.
+  injection H as <- _ <-.
+  assert (Hloop : srloop rid T w (nonempty_tables w (get_tables w f)) [] false = inl (Some (w1, segs))).
+  { unfold set_relation_batch_nn in Hb. rewrite Hu in Hb. destruct (negb _); [done|]. cbn [arg_tables] in Hb.
+    change (batch_loop (fun w tid => set_relation_table w tid rid T)) with (srloop rid T) in Hb.
+    destruct (srloop rid T w (nonempty_tables w (get_tables w f)) [] false) as [[[w1' segs']|]|p]; try done.
+    by injection Hb as <- _ <-. }
+  assert (Hnd : NoDup (nonempty_tables w (get_tables w f))).
+  { unfold nonempty_tables. apply NoDup_filter. rewrite get_tables_contrib. by apply (selected_nodup w (as_live A)), K. }
+  assert (Hne : forall tid, tid ∈ nonempty_tables w (get_tables w f) -> tbl_ents w tid <> []).
+  { intros tid Hin. unfold nonempty_tables in Hin. apply elem_of_list_filter in Hin as [Hs _].
+    unfold table_skip, tbl_ents in *. destruct (w_tables w !! tid) as [t|]; [|done]. apply Nat.eqb_neq in Hs. unfold tlen in Hs. by destruct (t_ents t). }
+  destruct (srloop_segs (as_live A) rid T _ w [] false w1 segs Hnd (r2_ok _ _ _ K) C Hne Hloop)
+    as (new & Hsegs & Hflat & Hall & _). simpl in Hsegs. subst new.
+  destruct (srloop_ok (as_live A) rid T _ w [] false w1 segs Hnd (r2_ok _ _ _ K) C Hne Hloop)
+    as (K1 & _ & F & _ & _ & _ & _ & Hviews).
+  assert (Hall2 : Forall (fun s => (s_skip s = false /\ s_start s < s_end s /\ s_end s <= length (tbl_ents w1 (s_tid s)) /\
+                     exists om orl ot, s_old s = Some (om, orl, ot) /\ ot <> T /\
+                       forall e, e ∈ seg_ents w1 s ->
+                         e ∈ as_live A /\ ent_mask w e = Some om /\ ent_rel w e = Some orl /\ ent_target w e = Some ot) /\
+                     (forall e, e ∈ seg_ents w1 s -> srviews T rid w w1 e)) segs).
+  { apply Forall_forall. intros s Hs. split; [by apply (proj1 (Forall_forall _ _) Hall)|].
+    intros e Hein.
+    assert (Hin_flat : e ∈ flat_map (seg_ents w1) segs) by (apply elem_of_list_In, in_flat_map; exists s; split; apply elem_of_list_In; done).
+    rewrite Hflat in Hin_flat. unfold table_ents in Hin_flat. apply elem_of_list_In, in_flat_map in Hin_flat as (tid' & Hin' & Hmem).
+    apply elem_of_list_In in Hin', Hmem. unfold retargeted in Hin'. apply elem_of_list_filter in Hin' as [_ Hin'].
+    by apply (Hviews tid' e). }
+  rewrite <- (table_ents_retargeted_nonempty T w (get_tables w f)), <- Hflat, flat_map_flat_map.
+  unfold ev_batch. rewrite (fr_listener _ _ F), Hlis.
+  assert (Hul : is_locked w1 = false) by (unfold is_locked; by rewrite (fr_locks _ _ F)).
+  clear Hflat Hb Hloop Hall. induction Hall2 as [|s r [(Hsk & Hlt & Hle & om & orl & ot & Hold & Hotne & Hold_views) Hsv] _ IH]; [done|].
+  cbn [flat_map]. rewrite IH. f_equal. clear IH.
+  unfold tbl_ents in Hle. destruct (w_tables w1 !! s_tid s) as [t|] eqn:Ht; [|simpl in Hle; lia].
+  destruct (so_table _ _ (wr_store _ _ K1) (s_tid s) t Ht) as (nd & Hnd' & _). rewrite Hnd', Hold, Hul.
+  assert (Hse : seg_ents w1 s = take (s_end s - s_start s) (drop (s_start s) (t_ents t))).
+  { unfold seg_ents, tbl_ents. by rewrite Hsk, Ht. }
+  rewrite <- Hse.
+  apply flat_map_ext_mem. intros e Hein.
+  destruct (Hold_views e Hein) as (Hlive & V1 & V2 & V3).
+  destruct (Hsv e Hein) as (S1 & S2 & S3 & _ & S5).
+  rewrite Hse in Hein. apply elem_of_take in Hein as (i & Hi & _). rewrite lookup_drop in Hi.
+  destruct (so_rows _ _ (wr_store _ _ K1) (s_tid s) t _ e Ht Hi) as [_ Hloc].
+  destruct (views_of_row w1 (as_live A) e (s_tid s) _ t nd (wr_store _ _ K1) Hlive Hloc Ht Hnd') as (W1 & W2 & W3).
+  assert (Hm : n_mask nd = om) by congruence.
+  assert (Hrl : n_rel nd = orl) by congruence.
+  assert (Htg : t_target t = T) by congruence.
+  assert (Horl : orl = Some rid).
+  { destruct S5 as [S5|S5]; [|congruence]. rewrite V3 in S5. by injection S5. }
+  unfold sr_ev. rewrite V3, Hm, Hrl, Htg, Horl, N.lxor_nilpotent. cbn [opt_ne]. rewrite Nat.eqb_refl.
+  assert (Hneq : ent_eqb ot T = false) by (by apply ent_eqb_neq). rewrite Hneq.
+  cbn [bool_decide negb orb]. rewrite recipients_all by done. done.
 Qed.
